@@ -89,14 +89,30 @@ def rt_files():
     return [os.path.join(d, n) for n in sorted(os.listdir(d)) if n.endswith((".c", ".h"))]
 
 
-def prune_cache(keep=6):
-    """keep the cache small: drop all but the newest few build dirs"""
+def prune_cache(keep=40):
+    """keep the cache small: drop old harness build dirs (never anything a concurrently
+    running check may still be using: only `h_*` dirs untouched for 30 minutes, and run
+    work dirs that a crashed check left behind more than 3 hours ago)"""
+    now = time.time()
     try:
-        ds = [os.path.join(CACHE, d) for d in os.listdir(CACHE) if os.path.isdir(os.path.join(CACHE, d))]
+        names = os.listdir(CACHE)
     except OSError:
         return
-    ds.sort(key=lambda d: os.path.getmtime(d), reverse=True)
-    for d in ds[keep:]:
+    hs = []
+    for n in names:
+        d = os.path.join(CACHE, n)
+        if not os.path.isdir(d):
+            continue
+        try:
+            age = now - os.path.getmtime(d)
+        except OSError:
+            continue
+        if n.startswith("h_") and age > 1800:
+            hs.append((age, d))
+        elif n.startswith("run_") and age > 3 * 3600:
+            shutil.rmtree(d, ignore_errors=True)
+    hs.sort()
+    for _, d in hs[keep:]:
         shutil.rmtree(d, ignore_errors=True)
 
 
